@@ -459,4 +459,48 @@ def vfE (e : Err) : Str :=
 /-- the `%!verb(type)` notation of an unsupported verb -/
 def badVerb (verb : UInt8) (e : Err) : Str := b!"%!" ++ [verb] ++ b!"(" ++ e.ty.tstr ++ b!")"
 
+/-! ### verb dispatch (`formatErrorInternal`, `finishDisplay`) -/
+
+/-- a printf directive: the verb, the flags and whether a width / precision is present -/
+structure Spec where
+  verb : UInt8
+  plus : Bool := false
+  minus : Bool := false
+  sharp : Bool := false
+  space : Bool := false
+  zero : Bool := false
+  width : Option Nat := none
+  prec : Option Nat := none
+  deriving Repr, DecidableEq, Inhabited
+
+/-- what ends up in the caller's `fmt.State` -/
+inductive VOut
+  | direct (s : Str)      -- the buffer copied as is
+  | viaFmt (s : Str)      -- `fmt.Fprintf(state, <the same directive>, s)`: fmt applies verb, flags, width, precision to the string
+  | goSyntax              -- `%#v`: GoString() / the pretty printer (outside the model)
+  | bad (s : Str)         -- the `%!verb(type)` refusal
+  deriving Repr, DecidableEq, Inhabited
+
+def vV : UInt8 := 118
+def vS : UInt8 := 115
+def vQ : UInt8 := 113
+def vx : UInt8 := 120
+def vX : UInt8 := 88
+
+/-- `finishDisplay` -/
+def finishDisplay (red : Bool) (sp : Spec) (buf : Str) : VOut :=
+  if red then .direct buf
+  else
+    let direct := sp.verb = vV || sp.verb = vS
+    if !direct || (match sp.width with | some w => w > 0 | none => false) || sp.prec.isSome then .viaFmt buf
+    else .direct buf
+
+/-- `formatErrorInternal` -/
+def formatVerb (red : Bool) (sp : Spec) (e : Err) : VOut :=
+  if sp.verb = vV && sp.plus && !sp.sharp then finishDisplay red sp (render red true e)
+  else if !red && sp.verb = vV && sp.sharp then .goSyntax
+  else if sp.verb = vS || (sp.verb = vV && !sp.sharp) || (!red && (sp.verb = vx || sp.verb = vX || sp.verb = vQ)) then
+    finishDisplay red sp (render red false e)
+  else .bad (badVerb sp.verb e)
+
 end ErrModel
